@@ -81,6 +81,9 @@ class GenFail(Exception):
     pass
 
 
+OPERATOR_FUNCTION_KEYWORD = {"Select": "f", "SelectMany": "func", "Where": "filter"}
+
+
 class Gen:
     def __init__(self, rnd, naming="distinct", method_form=0.0, called=0.15, called_kw=0.3, pack=0.3,
                  hostile_sel=0.0):
@@ -110,11 +113,20 @@ class Gen:
         self.all_names.add(f"v{self.k}")
         return f"v{self.k}"
 
+    keyword_operators = 0.04
+
     def op(self, name, seq, *args):
+        kws = []
+        if name in OPERATOR_FUNCTION_KEYWORD and len(args) == 1 and self.r.random() < self.keyword_operators:
+            # Where(seq, filter=lambda ...): the function under the name ObjectStream declares for it
+            self.feat.add("operator-function-by-keyword")
+            kws, args = [ast.keyword(arg=OPERATOR_FUNCTION_KEYWORD[name], value=args[0])], ()
         if self.r.random() < self.method_form:
             self.feat.add("method-form")
-            return ast.Call(func=attr(seq, name), args=list(args), keywords=[])
-        return call(name, seq, *args)
+            return ast.Call(func=attr(seq, name), args=list(args), keywords=kws)
+        c = call(name, seq, *args)
+        c.keywords = kws
+        return c
 
     # -- all ways to reach a sub-shape of a variable in scope by constant projection
     def sources(self, env, want):
